@@ -6,6 +6,8 @@ observes (block serial numbers, allocator identity, the vector dumped next to th
 -/
 import Cntgs.RefProofs
 import Cntgs.Props.C05
+import Cntgs.ElemProofs
+import Cntgs.VectorProofs
 namespace Cntgs.C12
 
 /-- Constructing an element from a reference: it holds the referenced field values, in a block of its own
@@ -119,6 +121,54 @@ theorem move_with_unequal_allocator (ew : EWorld) (ps : List Param) (a b alloc :
     ew'.elems a = some { ea with val := movedValues ps ea.val } ∧ ew'.w.vecs = ew.w.vecs := by
   simp only [EWorld.elemMoveA, ha, hne, Bool.false_eq_true, if_false, Ptr.make, Heap.allocate, hnf]
   refine ⟨by simp [EWorld.setE, Ne.symm hab], by simp [EWorld.setE], trivial⟩
+
+
+/-- **Every history of element operations** — constructions from the three kinds of reference, copy and move construction,
+    the allocator-extended constructors with equal and unequal allocators, copy and move assignment on all their branches
+    (field-wise, stealing, re-allocating, in place; smaller into larger and larger into smaller), swap, destruction — with
+    any allocation failing and the caller going on: the elements afterwards hold exactly the values that the same history
+    yields on a map  name ↦ value | moved-from  (`EOp.aspec`), each live one in a block of its own that is large enough. -/
+theorem history_of_element_operations (ps : List Param) (hl : ListOK ps) (ops : List EOp) (ew : EWorld) (A : Nat → Option AElem)
+    (h0 : ew.w.threw = false) (h : EInv ps ew.elems A) (hv : EValid ps ew A ops) :
+    EInv ps (erun ps ew ops).elems (earun ps ew A ops) :=
+  EInv.history ps (storage_pos hl) ops ew A h0 h hv
+
+/-- what the invariant means for what a caller can observe -/
+theorem element_observations (ps : List Param) (elems : Nat → Option ElemSt) (A : Nat → Option AElem) (h : EInv ps elems A) (k : Nat) :
+    (∀ v, A k = some (.live v) → ∃ es, elems k = some es ∧ es.val = v ∧ es.bytes = elemBytes ps v ∧ es.ptr.blk ≠ none ∧
+      elemBytes ps v ≤ es.ptr.units * storageAl ps) ∧
+    (A k = some .moved → ∃ es, elems k = some es ∧ es.ptr.blk = none) ∧
+    (A k = none → elems k = none) :=
+  EInv.observe ps elems A h k
+
+/-- the abstract operations say what the property says: a copy leaves its source, a (stealing) move empties it, assignment
+    gives the target the source's value, swap exchanges -/
+theorem abstract_spec_is_value_semantics (ps : List Param) (ew : EWorld) (A : Nat → Option AElem) (a b : Nat) (hab : a ≠ b) :
+    ((EOp.copy a b).aspec ps ew A b = A a ∧ (EOp.copy a b).aspec ps ew A a = A a) ∧
+    ((EOp.move a b).aspec ps ew A b = A a ∧ (EOp.move a b).aspec ps ew A a = some .moved) ∧
+    ((EOp.assign a b).aspec ps ew A b = A a ∧ (EOp.assign a b).aspec ps ew A a = A a) ∧
+    ((EOp.swap a b).aspec ps ew A a = A b ∧ (EOp.swap a b).aspec ps ew A b = A a) := by
+  simp [EOp.aspec, eset, hab, Ne.symm hab]
+
+/-- non-vacuity: a world with one element of `<u32, VaryingSize<u8>>`; the history copy-with-allocator, move-with-unequal-
+    allocator, copy assignment, swap, destroy meets `EValid` -/
+example :
+    let ps : List Param := [⟨.plain, 4, 4, {}⟩, ⟨.varying, 1, 1, {}⟩]
+    let e0 : ElemSt := ⟨[[2], [7, 8]], 6, ⟨some 1, 2, 1⟩⟩
+    let ew : EWorld := { elems := fun k => if k = 0 then some e0 else none }
+    let A : Nat → Option AElem := fun k => if k = 0 then some (.live [[2], [7, 8]]) else none
+    EInv ps ew.elems A ∧ EValid ps ew A [.copyA 0 1 2, .moveA 0 2 2, .assign 1 2, .swap 1 2, .destroy 0] := by
+  intro ps e0 ew A
+  refine ⟨?_, ?_⟩
+  · intro k
+    by_cases hk : k = 0
+    · subst hk
+      show ERep ps e0 (.live [[2], [7, 8]])
+      refine ⟨rfl, rfl, by decide +kernel, by decide, by simp [e0], by decide +kernel⟩
+    · simp [ew, A, hk, ERel]
+  · refine ⟨⟨⟨_, rfl⟩, rfl⟩, ⟨⟨_, rfl⟩, rfl⟩, Or.inr ⟨_, rfl, by decide, ?_⟩, Or.inr ⟨by decide, by decide⟩, trivial, trivial⟩
+    intro hf
+    exact absurd hf (by decide +kernel)
 
 /-- vector operations do not touch the elements, element operations on existing elements do not touch the
     vectors (field-wise copy assignment shown; the others are analogous one-liners) -/
